@@ -268,24 +268,29 @@ def factor_rule(ck, rule):
     raw = Term.bvar("raw")
     oracle = ite(raw, Term.const(1), exp2(Term.var("n_frac")))
     okn = 0
+    from ..common import guard_cases
     for pf in pfs:
         if pf.end != "return" or pf.ret is None:
             if pf.end != "raise":
                 ck.bad(rule, fac, "the conversion-factor helper returns a factor on every path", "path falls off without a value", fac.node)
             continue
-        asg = guard_assignment(pf.guards)
         try:
-            t = mkterm(pf.ret).subst(asg)
+            t0 = mkterm(pf.ret)
         except NotATerm as e:
             ck.unsure(rule, fac, "factor is a power of two in n_frac", pf.ret_stmt, "%s: %s" % (e, src(pf.ret)))
             continue
-        o = oracle.subst(asg)
-        ck.saw(terms=1)
-        if t == o:
+        good = True
+        for asg in guard_cases(pf.guards):
+            t = t0.subst(asg)
+            o = oracle.subst(asg)
+            ck.saw(terms=1)
+            if t != o:
+                good = False
+                ck.bad(rule, fac, "conversion factor equals 2^n_frac (1 for raw codes)", "under %s returns %s, expected %s" % (_ctrl(pf.guards), t.show(), o.show()),
+                       pf.ret_stmt, {"witness": witness(t, o)})
+                break
+        if good:
             okn += 1
-        else:
-            ck.bad(rule, fac, "conversion factor equals 2^n_frac (1 for raw codes)", "under %s returns %s, expected %s" % (_ctrl(pf.guards), t.show(), o.show()),
-                   pf.ret_stmt, {"witness": witness(t, o)})
     if okn:
         ck.ok(rule, fac, "all %d return branches normalise to ite(raw, 1, 2^n_frac)" % okn)
 
